@@ -41,7 +41,8 @@ import py2lean  # noqa: E402
 INTS = [-(10 ** 12) - 7, -(2 ** 31) - 1, -1001, -501, -130, -101, -100, -65, -51, -50, -14, -13, -7, -5, -4, -3, -2, -1, 0, 1, 2, 3,
         4, 5, 6, 7, 12, 13, 14, 19, 20, 21, 30, 31, 58, 59, 64, 89, 90, 99, 100, 101, 255, 500, 501, 1000, 1001, 2 ** 31, 10 ** 12 + 7]
 SMALL = [-101, -100, -7, -3, -1, 0, 1, 2, 3, 7, 13, 50, 99, 100, 499, 600, 1001]
-EXC = {"ValueError": "valueError", "OverflowError": "overflowError", "ZeroDivisionError": "zeroDivision", "IndexError": "indexError",
+NODE_LISTS = [[], [(3, 30)], [(-5, 7), (1, 10), (5, 50)], [(-9, 1), (-4, 2), (-3, 3), (0, 4), (2, 5), (4, 6), (9, 8), (100, 9)]]
+EXC = {"SkippedTimeError": "skippedTime", "AmbiguousTimeError": "ambiguousTime", "ValueError": "valueError", "OverflowError": "overflowError", "ZeroDivisionError": "zeroDivision", "IndexError": "indexError",
        "KeyError": "keyError", "RuntimeError": "runtimeError", "TypeError": "typeError", "NotImplementedError": "notImplemented"}
 
 
@@ -62,6 +63,8 @@ def grid(types, rng, custom=None):
             pools.append([(a, b) for a in SMALL for b in (-500, -3, 0, 2, 99, 500)])
         elif t == "Span":
             pools.append([(a, b) for a in (-700, -101, -7, 0, 3, 50, 99) for b in (-650, -8, -7, 0, 2, 5, 60, 120, 1001)])
+        elif t == "Nodes":  # one of the fixed sorted lists of nodes
+            pools.append([(i,) for i in range(len(NODE_LISTS))])
         elif t == "StoreSeed":  # the dict {i: seed * i + (i & 1) for i in range(8)}
             pools.append([(a,) for a in (-2, 0, 3, 7)])
         elif t == "Holder":  # (multiplier of its LinearScaler, bias)
@@ -194,6 +197,11 @@ def run(keep=False) -> dict:
                     names += [f"a{k}", f"a{k+1}"]
                     args.append(f"(⟨⟨fun x => a{k} * x + 1, fun v l => ckv v (-l) l⟩, a{k+1}⟩ : Holder)")
                     k += 2
+                elif ty == "Nodes":
+                    names.append(f"a{k}")
+                    alts = " ".join(f"| {i} => #[{', '.join(f'⟨{lean_lit(a)}, {lean_lit(b)}⟩' for a, b in l)}]" for i, l in enumerate(NODE_LISTS))
+                    args.append(f"((match a{k} with {alts} | _ => #[]) : Array Node)")
+                    k += 1
                 elif ty == "StoreSeed":
                     names.append(f"a{k}")
                     args.append(f"(fun i => if 0 ≤ i ∧ i < 8 then some (a{k} * i + Int.fmod i 2) else none)")
@@ -262,7 +270,7 @@ def run(keep=False) -> dict:
                 continue
             bad = 0
             for c_in, l_res in zip(combos, got):
-                args = [Vec._ctor(x=p[0], y=p[1]) if ty == "Vec" else mod.Span._ctor(lo=p[0], hi=p[1]) if ty == "Span" else mod.Holder(mod.LinearScaler(p[0]), p[1]) if ty == "Holder" else p[0]
+                args = [[mod.Node(a, b) for a, b in NODE_LISTS[p[0]]] if ty == "Nodes" else Vec._ctor(x=p[0], y=p[1]) if ty == "Vec" else mod.Span._ctor(lo=p[0], hi=p[1]) if ty == "Span" else mod.Holder(mod.LinearScaler(p[0]), p[1]) if ty == "Holder" else p[0]
                         for ty, p in zip(types, c_in)]
                 pnames = [n for n, _ in t.lean_params()]
                 nextra = len(t.extra_params) + (1 if t.dstate else 0)
@@ -290,7 +298,7 @@ def run(keep=False) -> dict:
                         elif pnames and pnames[0] == "self":
                             r = getattr(args[0], t.function)(*args[1:])
                         else:  # erased receiver
-                            if t.fun_params:
+                            if t.fun_params and not t.extra_params:
                                 obj = type("Probe", (getattr(mod, t.cls),), {"_weight": lambda self, x: 3 * x - 2})()
                             elif t.extra_params:
                                 # instance attributes carried as parameters: set them on a bare instance
@@ -301,6 +309,10 @@ def run(keep=False) -> dict:
                                     if en:
                                         val = getattr(mod, en)(val)
                                     a = inv[n]
+                                    setattr(obj, f"_{t.cls}{a}" if a.startswith("__") and not a.endswith("__") else a, val)
+                                for a, val in (t.d.get("selftest_attrs") or {}).items():
+                                    if val == "scaler3":   # an object whose scale(x) = 3*x - 2, the self-test's abstract callee
+                                        val = type("S3", (mod.Scaler,), {"scale": lambda self, x: 3 * x - 2})()
                                     setattr(obj, f"_{t.cls}{a}" if a.startswith("__") and not a.endswith("__") else a, val)
                             else:
                                 obj = cls()
